@@ -105,6 +105,6 @@ def kept_pass(v, tier):
     from .c05 import export
     layouts, _ = export()
     summ = harness_traces("c17net", tier, shards=2, extra_args=["-x", "layouts=" + layouts], timeout=1800)
-    validate(v, "Trace_Api", "Trace_Api.cfg", summ, lambda conj, rec: "%s:%s:%s" % (conj, rec["op"], rec["kept"]["path"]))
+    validate(v, "Trace_Api", "Trace_Api.cfg", summ, lambda conj, rec: "%s:%s:%s" % (conj, rec["op"], rec["kept"]["path"] if "kept" in rec else rec.get("what")))
     v.coverage["kept_results"] = summ["records"]
     return summ
